@@ -9,12 +9,20 @@ ENGINE = "open"
 
 # used until the entry is in /verif/known_findings.json (the committed list wins; see final report of the builder)
 BUILTIN_KNOWN = [
+    {"property": "C13", "tag": "PrecreateNotAtomic", "dev": "PrecreateNotAtomic",
+     "text": "precreate_secure_database_file creates the database file with the process umask (OpenOptions::create_new without a mode, "
+             "typically 0644) and restricts it to 0600 in a second system call; in between the file is group/world accessible, so it is "
+             "not 'created accessible to its owner only' (a descriptor opened in that window keeps read access to everything written later; "
+             "matters when the parent directory pre-exists with lax permissions - a directory the code creates is 0700, itself via mkdir+chmod). "
+             "Seen on the real code by a watcher thread that stat()s the path while MdkSqliteStorage::new / new_with_key / new_unencrypted run "
+             "on a missing path (history: Begin new(p1); Sight p1 mode=0644; keyring get...; End Ok mode=0600)."},
     {"property": "C19", "tag": "MemSnapshotTwoSections", "dev": "MemSnapshotTwoSections",
-     "text": "memory backend: create_group_snapshot captures the group under inner.read() and publishes it under a second lock "
-             "(group_snapshots.write()), rollback_group_to_snapshot removes the snapshot under one lock and restores under the other; "
-             "a concurrent caller can see the gap, so the calls are not one atomic step (history: T2 create_group_snapshot(g,s) captures "
-             "v0; T1 save_group(g,v1) returns; T1 list_group_snapshots(g) = {} ; T2 publishes s=v0 and returns; rollback restores v0 "
-             "although the listing taken after the save saw no snapshot). SQLite does both under one connection lock + transaction."},
+     "text": "memory backend: create_group_snapshot and rollback_group_to_snapshot are two critical sections each (capture under inner.read(), "
+             "publish under group_snapshots.write(); remove under group_snapshots.write(), restore under inner.write()), so other threads' calls take "
+             "effect in between and the call is not one atomic step. Seen on real threads (history: T1 rollback_group_to_snapshot(g1,s2) running; "
+             "T2 list_group_snapshots(g1) = {} (s2 already consumed); T3/T2 save_group(g1,v20), save_group(g1,v9), find_group = v9, save_group(g1,v10) "
+             "all return; then find_group(g1) = v15, the snapshot's value, and only then T1 returns) and exhaustively in MemLocks.tla (T2 create_group_snapshot "
+             "captures v0; T1 save_group(v1) returns; T1 list = {}; T2 publishes v0). SQLite does both under one connection lock + transaction."},
 ]
 
 OPEN_CFG = """SPECIFICATION TraceSpec
@@ -101,12 +109,28 @@ def hopen(rt, binp, sub, out, args, dev, timeout=1200):
     return rc, o, time.time() - t
 
 
-def mc_part(rt, pid, runs, viol, mc_runs):
+def cfg_with_dev(rt, cfg, dev):
+    """as-built configs carry the deviation flags currently listed as known; *_intended.cfg stay at Dev = {}"""
+    if "intended" in cfg:
+        return cfg
+    text = open(os.path.join(rt.SPEC, cfg)).read()
+    m = re.search(r'Dev = \{([^}]*)\}', text)
+    if not m:
+        return cfg
+    listed = [x.strip().strip('"') for x in m.group(1).split(",") if x.strip()]
+    keep = [x for x in listed if x in dev]
+    text = text[:m.start()] + "Dev = {%s}" % ",".join('"%s"' % x for x in keep) + text[m.end():]
+    out = os.path.join(rt.OUT, "mcgen_%d_%s" % (os.getpid(), cfg))
+    open(out, "w").write(text)
+    return out
+
+
+def mc_part(rt, pid, runs, viol, mc_runs, dev=()):
     """exhaustive TLC runs; returns (states, transitions, known_tags_seen) or None on tool error"""
     states = trans = 0
     tags = set()
     for (module, cfg, to, expect_clean) in runs:
-        r = rt.tlc_mc(module, cfg, workers=8, timeout=to)
+        r = rt.tlc_mc(module, cfg_with_dev(rt, cfg, dev), workers=8, timeout=to)
         mc_runs.append({"module": module, "cfg": cfg, "states": r["states"], "transitions": r["transitions"], "completed": r["completed"]})
         states += r["states"]
         trans += r["transitions"]
@@ -205,6 +229,8 @@ def c13_sample(h):
             out.append("%s: %s(%s%s)" % (x["t"], x["ctor"], x["p"], "," + x["key"] if x["key"] else ""))
         elif o in ("Get", "Set", "Delete"):
             out.append("%s: keyring.%s -> %s" % (x["t"], o.lower(), x.get("k", "") or "none"))
+        elif o == "Sight":
+            out.append("watcher: stat(%s) -> mode %s" % (x["p"], x["mode"]))
         elif o == "End":
             out.append("%s: returns %s (mode %s)" % (x["t"], x["res"], x["mode"]))
         elif o == "Probe":
@@ -219,11 +245,12 @@ def plan_C13(ctx, rt):
     binp = rt.build_crate("hopen")
     viol, mc_runs = [], []
     known_seen = set()
-    dev = []  # no deviation of the code from Open.tla is known
-    runs = [("MCOpen.tla", "MC_open_quick.cfg", 600, True), ("MCOpen.tla", "MC_open_poison.cfg", 600, True)]
+    dev = sorted({k["dev"] for k in all_known(rt) if k.get("dev") and k["property"] == "C13"})
+    runs = [("MCOpen.tla", "MC_open_quick.cfg", 600, True), ("MCOpen.tla", "MC_open_poison.cfg", 600, True),
+            ("MCOpen.tla", "MC_open_intended.cfg", 600, True)]
     if tier == "thorough":
         runs.append(("MCOpen.tla", "MC_open_thorough.cfg", 1500, True))
-    mc = mc_part(rt, pid, runs, viol, mc_runs)
+    mc = mc_part(rt, pid, runs, viol, mc_runs, dev)
     if mc is None:
         return 2
     states, trans, tags = mc
@@ -232,10 +259,12 @@ def plan_C13(ctx, rt):
     os.makedirs(tdir, exist_ok=True)
     parts = [("matrix", {"seed": seed}, 600),
              ("race", {"seed": seed, "n": 15 if tier == "quick" else 40, "maxthreads": 6}, 1500),
-             ("race", {"seed": seed + 50, "n": 2 if tier == "quick" else 10, "minthreads": 7, "maxthreads": 8}, 1500),
+
              ("poison", {"seed": seed}, 300),
              ("scan", {"seed": seed, "n": 1 if tier == "quick" else 4}, 600)]
     if tier == "thorough":
+        # 7 and 8 racing threads: the search over unobserved steps is costly, thorough tier only
+        parts.append(("race", {"seed": seed + 50, "n": 8, "minthreads": 7, "maxthreads": 8}, 1700))
         for k in range(1, 4):
             parts.append(("race", {"seed": seed * 100 + k, "n": 40, "maxthreads": 6}, 1500))
             parts.append(("poison", {"seed": seed * 100 + k}, 300))
@@ -260,6 +289,7 @@ def plan_C13(ctx, rt):
             rt.log("TOOL-ERROR: TLC trace validation failed to run on %s" % tr)
             return 2
         events += r["states"]
+        known_seen |= {x for x in set(re.findall(r'<<"KNOWN-FINDING", "(\w+)", "(\w+)"', r["out"])) if x[0] == pid}
         hs = split_histories(tr)
         if sub == "matrix":
             cells = json.loads(open(tr).readline()).get("cells", 0)
@@ -298,13 +328,13 @@ def plan_C13(ctx, rt):
            "samples": samples, "evaluations": nh, "distinct_nontrivial": len(nontriv),
            "rule": "one history per cell of constructor{new,new_with_key(right),new_with_key(other),new_unencrypted} x file{missing(dir absent/present),empty,plain,encrypted} "
                    "x mode{0600,0644} x keyring{none,right,other}, each: call, write, close, probe, same call again, probe; plus shared-key-id two-path histories; "
-                   "plus seeded races of 2..8 real threads (same/different paths, mixed constructors, store latencies); plus a keystore-crash history; "
+                   "plus seeded races of 2..6 (quick) / 2..8 (thorough) real threads (same/different paths, mixed constructors, store latencies); plus a keystore-crash history; "
                    "distinct = hash of (initial state, set of calls); non-trivial = touches an existing file or keyring entry, generates a key, or has >= 2 threads",
            "trace_events_checked": events, "mc_runs": mc_runs, "matrix_cells": cells,
            "scan": {"level": "exploration", "steps_scanned": scan_steps, "patterns": scan_patterns, "files_seen": sorted(scan_files),
                     "positive_control_kinds_found_on_unencrypted_db": sorted(control_kinds)},
            "invariants": ["KeyCreatedOnce", "OpensUseKeyringKey", "WrongKeyNeverOpens", "ExistingFileNeverGeneratesKey", "PermsOwnerOnly",
-                          "MatrixAgrees", "FileMonotone", "InvScan (leaks = {} on every scanned step)", "deadlock freedom"],
+                          "MatrixAgrees", "FileMonotone", "PermsNeverLoose (excused: PrecreateNotAtomic)", "InvScan (leaks = {} on every scanned step)", "deadlock freedom"],
            "exhaustive": False}
     rc = finish(rt, ctx, pid, "model_checking", cov, viol, known_seen, ASSUME_C13)
     if rc == 0:
@@ -377,7 +407,7 @@ def plan_C19(ctx, rt):
     viol, mc_runs = [], []
     known_seen = set()
     known = all_known(rt)
-    dev = sorted({k["dev"] for k in known if k.get("dev") and k["property"] == "C19"})
+    dev = sorted({k["dev"] for k in known if k.get("dev") and k["property"] in ("C19", "C13")})
     runs = [("MemLocks.tla", "MC_memlocks_quick.cfg", 600, True), ("MemLocks.tla", "MC_memlocks_intended.cfg", 600, True),
             ("MCOpen.tla", "MC_open_quick.cfg", 600, True)]
     if tier == "thorough":
@@ -386,11 +416,11 @@ def plan_C19(ctx, rt):
     if "MemSnapshotTwoSections" not in dev:
         # the finding is listed as fixed / removed: the as-built model no longer has the deviation
         runs = [r for r in runs if r[1] not in ("MC_memlocks_quick.cfg", "MC_memlocks_thorough.cfg", "MC_memlocks_thorough2.cfg")]
-    mc = mc_part(rt, pid, runs, viol, mc_runs)
+    mc = mc_part(rt, pid, runs, viol, mc_runs, dev)
     if mc is None:
         return 2
     states, trans, tags = mc
-    known_seen |= tags
+    known_seen |= {x for x in tags if x[0] == pid}
     tdir = os.path.join(rt.OUT, "traces")
     os.makedirs(tdir, exist_ok=True)
     L = ("LinTrace.tla", LIN_CFG)
